@@ -66,8 +66,10 @@ func (o dop) coq() string {
 		return "DFlush"
 	case dFlushX:
 		return "DFlushX"
-	case dFlushT, dFlushF, dFlushH:
-		return "DFlushT" // same call in the model; which select branch is taken follows from the queue being full
+	case dFlushF:
+		return "DFlushF" // same call in the model; the queue is full, so the marker cannot be queued
+	case dFlushT, dFlushH:
+		return "DFlushT" // the marker is queued; the context ends at a later select
 	case dShutdown:
 		return "DShutdown"
 	case dShutdownX:
